@@ -197,6 +197,7 @@ class Contract:
         self.asserts = []
         self.assumes = []
         self.unroll = None
+        self.calls = None
         self.extern_params = []
         self.external_below = None
 
@@ -400,6 +401,10 @@ class ContractDB:
                 last = c
             elif word == 'external-below':
                 cur.external_below = Clause('external-below', 'external-below', [], rest, path, ln)
+                last = None
+            elif word == 'calls':
+                # the functions outside the module this function may call (closed list)
+                cur.calls = (cur.calls or []) + rest.split()
                 last = None
             elif word == 'unroll':
                 # a BOUNDED check: every loop reached from this function (also in callees, whose bodies are then followed
